@@ -75,12 +75,14 @@ def shards(tier):
     for buf in bufs[:2] if q else bufs:
         for mech in ("vmdk-hosted", "vmdk-stream", "vmdk-sesparse", "vmdk-multi", "hdd", "hdd-top", "hdd-topdefault", "hdd-plainbase", "hdd-split",
                      "qcow2", "qcow2-ext", "vdi", "vdi-mixed", "vdi-mixed-up", "vdi-grown", "hdd-grown", "vmdk-grown", "qcow2-grown",
-                     "vdi-grownpart", "hdd-grownpart", "vmdk-grownpart"):
+                     "vdi-grownpart", "hdd-grownpart", "vmdk-grownpart", "vdi-grown2", "hdd-grown2", "vmdk-grown2"):
             for depth in (1, 2, 3):
-                if (mech.startswith("vdi-mixed") or mech.endswith("-grown") or mech.endswith("-grownpart")) and depth == 1:
+                if (mech.startswith("vdi-mixed") or mech.endswith(("-grown", "-grown2")) or mech.endswith("-grownpart")) and depth == 1:
+                    continue
+                if mech.endswith("-grown2") and depth == 3:
                     continue
                 W = 3 if depth < 3 else 2
-                if mech.endswith("-grown"):
+                if mech.endswith(("-grown", "-grown2")):
                     W = 3  # layers of 2, 3 (depth 2) and 1, 2, 3 (depth 3) units
                 if not q and depth == 3 and mech in ("vdi", "qcow2", "vmdk-hosted"):
                     W = 3
@@ -512,16 +514,20 @@ ALPHA = {"vmdk-stream": [HOLE, ZERO, DATA], "vmdk-hosted": [HOLE, ZERO, DATA], "
          "qcow2": ["U", "Z", "N", "C"], "qcow2-ext": ["u", "a", "z"], "vdi": [HOLE, ZERO, DATA],
          "vdi-mixed": [HOLE, ZERO, DATA], "vdi-mixed-up": [HOLE, ZERO, DATA],
          "vdi-grown": [HOLE, ZERO, DATA], "hdd-grown": [HOLE, DATA], "vmdk-grown": [HOLE, ZERO, DATA], "qcow2-grown": ["U", "Z", "N"],
-         "vdi-grownpart": [HOLE, ZERO, DATA], "hdd-grownpart": [HOLE, DATA], "vmdk-grownpart": [HOLE, ZERO, DATA]}
+         "vdi-grownpart": [HOLE, ZERO, DATA], "hdd-grownpart": [HOLE, DATA], "vmdk-grownpart": [HOLE, ZERO, DATA],
+         "vdi-grown2": [HOLE, ZERO, DATA], "hdd-grown2": [HOLE, DATA], "vmdk-grown2": [HOLE, ZERO, DATA]}
 UNIT = {"vmdk-stream": 4096, "hdd-split": 4096, "vmdk-hosted": 4096, "vmdk-sesparse": 4096, "vmdk-multi": 4096, "hdd": 4096, "hdd-top": 4096,
         "hdd-topdefault": 4096, "hdd-plainbase": 4096, "qcow2": 4096, "qcow2-ext": 512,
         "vdi": 4096, "vdi-mixed": 4096, "vdi-mixed-up": 4096, "vdi-grown": 4096, "hdd-grown": 4096, "vmdk-grown": 4096,
-        "qcow2-grown": 4096, "vdi-grownpart": 4096, "hdd-grownpart": 4096, "vmdk-grownpart": 4096}
+        "qcow2-grown": 4096, "vdi-grownpart": 4096, "hdd-grownpart": 4096, "vmdk-grownpart": 4096, "vdi-grown2": 4096,
+        "hdd-grown2": 4096, "vmdk-grown2": 4096}
 
 
 def _grown_lens(mech, depth, W):
     """`-grown` mechanisms: every ancestor is one unit shorter than its child (a disk enlarged after each snapshot); what lies
     beyond the end of an ancestor is below the base for that ancestor: the next one down, finally zeros."""
+    if mech.endswith("-grown2"):  # the ancestor is two units shorter: a hole beyond its end can be followed by the child's own data
+        return [max(1, W - 2 * (depth - 1 - k)) for k in range(depth)]
     if not mech.endswith("-grown"):
         return [W] * depth
     return [W - (depth - 1 - k) for k in range(depth)]
@@ -592,7 +598,7 @@ def _case_chain(case, ctx, d, cache):
 
     size = W * unit
     lens = _grown_lens(mech, depth, W)
-    if mech.endswith("-grown"):
+    if mech.endswith(("-grown", "-grown2")):
         if any(x != ALPHA[mech][0] for k, st in enumerate(layers) for x in st[lens[k]:]):
             return  # the tokens behind the end of a shorter layer do not exist: one representative (all first token)
         layers = [list(st[:lens[k]]) for k, st in enumerate(layers)]
@@ -682,10 +688,10 @@ def _open_chain(mech, layers, d, cache, unit):
     """Builds every layer, opens the top through the public API; returns (stream, sector reader | None, closer)."""
     depth = len(layers)
     W = len(layers[-1])  # the top layer's length is the disk's (ancestors of `-grown` chains are shorter)
-    grown = mech.endswith("-grown")
+    grown = mech.endswith(("-grown", "-grown2"))
     psz = _part_sizes(mech, depth, W, unit)
     if grown:
-        mech = {"vdi-grown": "vdi", "hdd-grown": "hdd", "vmdk-grown": "vmdk-hosted", "qcow2-grown": "qcow2"}[mech]
+        mech = {"vdi-grown": "vdi", "hdd-grown": "hdd", "vmdk-grown": "vmdk-hosted", "qcow2-grown": "qcow2"}[mech.replace("-grown2", "-grown")]
     if psz:
         mech = {"vdi-grownpart": "vdi", "hdd-grownpart": "hdd", "vmdk-grownpart": "vmdk-hosted"}[mech]
     if mech.startswith("vmdk"):
